@@ -111,7 +111,8 @@ class Prop(BaseProp):
         ext_t, ext_m = rng.random() < 0.4, rng.random() < 0.4
         headers = list(rng.choice(HEADERS))
         prefix_src = rng.choice(["none", "none", "cli", "config"])
-        prefix = None if prefix_src == "none" else rng.choice(["Pfx", "my.pkg", "A B", "p-1", "Prä✓", "日本", ""])
+        prefix = None if prefix_src == "none" else rng.choice(["Pfx", "my.pkg", "A B", "p-1", "Prä✓", "日本", "", "Ends" + sep, sep + "starts",
+                                                               "Twice" + sep + sep])
         single = idx % 3 == 0
         res.sig = sig_hash([single, sep, ext_t, ext_m, len(headers), prefix_src, prefix])
         res.see("separators", sep)
@@ -126,7 +127,7 @@ class Prop(BaseProp):
                 rstcfg["prefix"] = prefix
             fsrun.write_yaml(cfg, {"rst": rstcfg})
             out = os.path.join(sb, "out")
-            base_argv = ["-s", cfg, "-o", out] + (["-p", prefix] if prefix_src == "cli" else [])
+            base_argv = ["-s", cfg, "-o", out] + ((["-p", prefix] if not prefix.startswith("-") else ["--prefix=" + prefix]) if prefix_src == "cli" else [])
             if single:
                 d = os.path.join(sb, "w", rng.choice(["", "deep/er"]))
                 os.makedirs(d, exist_ok=True)
